@@ -81,6 +81,9 @@ func MapKeys[K comparable, V any](m map[K]V, site string, rot bool) []K {
 	for k := range m {
 		keys = append(keys, k)
 	}
+	if len(keys) < 2 {
+		return keys
+	}
 	x := cur
 	sort.Slice(keys, func(i, j int) bool { return keyLess(x, keys[i], keys[j]) })
 	if rot && len(keys) > 1 && x != nil && !x.finished {
@@ -90,9 +93,38 @@ func MapKeys[K comparable, V any](m map[K]V, site string, rot bool) []K {
 	return keys
 }
 
+// Snap is a deterministic snapshot of a map's keys for iteration.
+type Snap[K comparable, V any] struct {
+	m    map[K]V
+	keys []K
+}
+
+// MapSnap replaces `range m` over a map: keys in sorted order (a legal Go order).
+func MapSnap[K comparable, V any](m map[K]V, site string) *Snap[K, V] {
+	return &Snap[K, V]{m: m, keys: MapKeys(m, site, false)}
+}
+func (s *Snap[K, V]) Len() int { return len(s.keys) }
+
+// At returns the i-th key and its current value; ok=false if it was deleted meanwhile.
+func (s *Snap[K, V]) At(i int) (K, V, bool) {
+	k := s.keys[i]
+	v, ok := s.m[k]
+	return k, v, ok
+}
+
 var ptrOrder = map[uintptr]int{}
 
+type verifKeyer interface{ VerifKey() string }
+
 func keyLess(x *Exec, a, b any) bool {
+	if ka, ok := a.(verifKeyer); ok {
+		if kb, ok := b.(verifKeyer); ok {
+			sa, sb := ka.VerifKey(), kb.VerifKey()
+			if sa != sb {
+				return sa < sb
+			}
+		}
+	}
 	va, vb := reflect.ValueOf(a), reflect.ValueOf(b)
 	switch va.Kind() {
 	case reflect.String:
